@@ -448,9 +448,15 @@ class WorkerController:
                     fslocation=kwargs["nodeid"],
                 )
             elif eventname == "warning_recorded":
-                warning_message = unserialize_warning_message(
-                    kwargs["warning_message_data"]
-                )
+                try:
+                    warning_message = unserialize_warning_message(
+                        kwargs["warning_message_data"]
+                    )
+                except Exception:
+                    # the warning class cannot be imported or rebuilt here
+                    warning_message = unserialize_warning_message(
+                        _generic_warning_data(kwargs["warning_message_data"])
+                    )
                 self.notify_inproc(
                     eventname,
                     warning_message=warning_message,
@@ -470,6 +476,23 @@ class WorkerController:
             self.shutdown()
             self.notify_inproc("errordown", node=self, error=excinfo)
             self._down = True
+
+
+def _generic_warning_data(data: dict[str, Any]) -> dict[str, Any]:
+    """Degrade serialized warning data to a plain ``Warning`` that keeps the
+    original class name and text, for classes unknown to the controller."""
+    data = dict(data)
+    if data["message_module"]:
+        data["message_str"] = "{mod}.{cls}: {msg}".format(
+            mod=data["message_module"],
+            cls=data["message_class_name"],
+            msg=data["message_str"],
+        )
+        data["message_module"] = data["message_class_name"] = None
+        data["message_args"] = None
+    data["category_module"] = "builtins"
+    data["category_class_name"] = "Warning"
+    return data
 
 
 def unserialize_warning_message(data: dict[str, Any]) -> warnings.WarningMessage:
